@@ -8,7 +8,9 @@ os.makedirs(vdir+'/evidence',exist_ok=True)
 shutil.copy('/verif/known_findings.json',vdir)
 res={}
 for f in sorted(glob.glob(d+'/*.diff')):
-    subprocess.run(['rsync','-a','--delete','--exclude','.git','/repo/',repo+'/'],check=True)
+    # from the committed state, so that a seed matrix running in /repo's working tree does not leak in
+    shutil.rmtree(repo,ignore_errors=True); os.makedirs(repo)
+    subprocess.run('git -C /repo archive HEAD | tar -x -C '+repo,shell=True,check=True)
     ap=subprocess.run(['patch','-p1','-s','-f','--no-backup-if-mismatch','-i',f],cwd=repo,capture_output=True,text=True)
     name=os.path.basename(f)
     if ap.returncode!=0:
